@@ -22,6 +22,10 @@ CHECKS = {
  "C09": dict(category="model_checking", technique="bounded-exhaustive enumeration of newline-capable pattern forms x inputs x operation histories (deviation-bounded DFS), yylineno compared with the model's newline counter at every action and after every operation",
    text="~190 pattern forms that can match a newline through literals, escapes, classes, negated classes, POSIX expressions, {-}/{+}, (?s:.), definitions, trailing context, $ and '|' actions, in non-reentrant/reentrant/c99/-Cf/%array scanners with tiny buffers: for every input over {a,\\n,b} up to length L and every history of yyless/yyunput/yyinput/yymore/return/set-line-number within the deviation bound (and all reject decisions) the line number seen by each action equals 1 + newlines consumed; without %option yylineno a user-set value survives every input and operation.",
    note="'^' with yyless/yyunput not generated; c99 '|' actions are refused by flex itself (m4 error) and left out; per-buffer counts under buffer switching belong to C11.", design="2/C09"),
+
+ "C06": dict(category="model_checking", technique="bounded-exhaustive enumeration of anchored / trailing-context rule sets (every form of 8 heads x 7 trails, alone, against every competitor in both orders, in '|' chains, against each other) x every input up to length L through yylex(), compared with the reference (competition by total length, yyleng in the set of valid splits, resumption after the head)",
+   text="~25 000 rule sets per run in -Cem/-B/-I/-Cf/-CFe, reentrant, c99, yylineno, one-byte reads with 1-3 byte buffers, yysetbol and yyinput deviations: rule chosen, yyleng, yytext and the position where scanning resumes are compared at every action with the reference built from the ASTs of r and s; rule sets for which flex prints 'dangerous trailing context' (mapped back through rule line numbers) are excluded as the property says.",
+   note="Ambiguous splits without the warning are accepted when valid; nullable heads loop by design and are compared up to the step horizon; the duplicated pre-action of '|' rules with trailing context is recognised and counted, not judged here.", design="2/C06"),
 }
 
 NOT_YET = "check under construction in this round; will be claimed once it has run end-to-end on the unchanged tree"
